@@ -1,6 +1,6 @@
 (* C14 property theorems.  Only statements closed by [exact]; each followed by Print Assumptions.
    Stated over the definitions the harness runs (C14.Model.run / run_prog on the abstract stack of C14.Stack). *)
-From Miller Require Import C14.Value C14.Stack C14.Model C14.Proofs C14.StackProofs C14.ScopeProofs C14.DepthProofs C14.InterpProofs C14.PrecProofs C14.ArrayProofs gen.Gen_Precedence.
+From Miller Require Import C14.Value C14.Stack C14.Model C14.Proofs C14.StackProofs C14.ScopeProofs C14.DepthProofs C14.InterpProofs C14.PrecProofs C14.ArrayProofs C14.Harness C14.HofProofs gen.Gen_Precedence.
 Open Scope Z_scope.
 
 (* ---- the pooled, recycled frames and framesets of pkg/runtime/stack.go are observationally the abstract scopes:
@@ -352,3 +352,103 @@ Example C14_nonvacuous :
           p_begin := []; p_main := [SAssign (LField (B "y")) [] (ECall (B "f") [EField (B "a")])]; p_end := [] |}
        false 100 [[(B "a", VInt 5)]] = Ok [ORec [(B "a", VInt 5); (B "y", VInt 120)]].
 Proof. repeat split; try (vm_compute; congruence); vm_compute; reflexivity. Qed.
+
+(* ---- round 3: short circuit, emitp, higher-order functions with function literals, then-chains *)
+(* && / || / ?: / ?? never evaluate the skipped side: result and state are the left operand's, for EVERY skipped expression *)
+Theorem C14_and_short_circuits :
+  forall fns rec a b st st1, rec (TEval a) st = Ok (RV (VBool false), st1) ->
+    step fns rec (TEval (EAnd a b)) st = Ok (RV (VBool false), st1).
+Proof. exact and_short_circuit. Qed.
+Print Assumptions C14_and_short_circuits.
+
+Theorem C14_or_short_circuits :
+  forall fns rec a b st st1, rec (TEval a) st = Ok (RV (VBool true), st1) ->
+    step fns rec (TEval (EOr a b)) st = Ok (RV (VBool true), st1).
+Proof. exact or_short_circuit. Qed.
+Print Assumptions C14_or_short_circuits.
+
+Theorem C14_ternary_true_skips_else :
+  forall fns rec c a b b' st st1 (bv : bool), rec (TEval c) st = Ok (RV (VBool true), st1) ->
+    step fns rec (TEval (ETern c a b)) st = step fns rec (TEval (ETern c a b')) st
+    /\ step fns rec (TEval (ETern c a b)) st = rec (TEval a) st1.
+Proof. exact ternary_evaluates_one_branch. Qed.
+Print Assumptions C14_ternary_true_skips_else.
+
+Theorem C14_ternary_false_skips_then :
+  forall fns rec c a a' b st st1, rec (TEval c) st = Ok (RV (VBool false), st1) ->
+    step fns rec (TEval (ETern c a b)) st = step fns rec (TEval (ETern c a' b)) st
+    /\ step fns rec (TEval (ETern c a b)) st = rec (TEval b) st1.
+Proof. exact ternary_false_skips_then. Qed.
+Print Assumptions C14_ternary_false_skips_then.
+
+Theorem C14_absent_coalescing_skips_rhs_when_present :
+  forall fns rec a b st v st1, rec (TEval a) st = Ok (RV v, st1) -> v <> VAbsent ->
+    step fns rec (TEval (ECoal a b)) st = Ok (RV v, st1).
+Proof. exact coalesce_skips_rhs_when_present. Qed.
+Print Assumptions C14_absent_coalescing_skips_rhs_when_present.
+
+(* emitp by names = the grouping, = emit by names, on two-level maps *)
+Theorem C14_emitp_by_names_splits_like_grouping :
+  forall fns name a b, a <> b -> a <> name -> b <> name ->
+  forall m fuel st, two_level m = true -> (total2 m < fuel)%nat ->
+    run fns fuel (TEmitIdx true [] name m [a; b]) st = Ok (RO ONormal, emit_all (group2 name a b m) st).
+Proof. exact emitp_by_names_is_grouping. Qed.
+Print Assumptions C14_emitp_by_names_splits_like_grouping.
+
+Theorem C14_emitp_equals_emit_on_two_level_maps :
+  forall fns name a b, a <> b -> a <> name -> b <> name ->
+  forall m fuel st, two_level m = true -> (total2 m < fuel)%nat ->
+    run fns fuel (TEmitIdx true [] name m [a; b]) st = run fns fuel (TEmitIdx false [] name m [a; b]) st.
+Proof. exact emitp_emit_agree_on_two_level_maps. Qed.
+Print Assumptions C14_emitp_equals_emit_on_two_level_maps.
+
+Theorem C14_emitp_unindexed_is_one_named_record :
+  forall fns rec name e st v st1, rec (TEval e) st = Ok (RV v, st1) -> v <> VAbsent ->
+    step fns rec (TExec (SEmitP name e [])) st = Ok (RO ONormal, emit_item (ORec [(name, v)]) st1).
+Proof. exact emitp_unindexed_is_one_named_record. Qed.
+Print Assumptions C14_emitp_unindexed_is_one_named_record.
+
+(* higher-order functions: one callback call per element in order, accumulator threaded; any/every stop early;
+   callbacks (named functions and, inside the fragment, function literals) leave the caller's locals as they were *)
+Theorem C14_hof_calls_callback_per_element_in_order :
+  forall fns rec h ismap lit fn item rest acc st r st1 acc',
+    call_values fns rec lit fn (hof_args h ismap acc item) st = Ok (r, st1) ->
+    hof_next h ismap acc item r = HCont acc' ->
+    step fns rec (THof h ismap lit fn (item :: rest) acc) st = rec (THof h ismap lit fn rest acc') st1.
+Proof. exact hof_step. Qed.
+Print Assumptions C14_hof_calls_callback_per_element_in_order.
+
+Theorem C14_any_stops_at_first_true :
+  forall fns rec ismap lit fn item rest rest' acc st st1,
+    call_values fns rec lit fn (hof_args HAny ismap acc item) st = Ok (VBool true, st1) ->
+    step fns rec (THof HAny ismap lit fn (item :: rest) acc) st = Ok (RV (VBool true), st1)
+    /\ step fns rec (THof HAny ismap lit fn (item :: rest') acc) st = Ok (RV (VBool true), st1).
+Proof. exact any_stops_at_first_true. Qed.
+Print Assumptions C14_any_stops_at_first_true.
+
+Theorem C14_every_stops_at_first_false :
+  forall fns rec ismap lit fn item rest rest' acc st st1,
+    call_values fns rec lit fn (hof_args HEvery ismap acc item) st = Ok (VBool false, st1) ->
+    step fns rec (THof HEvery ismap lit fn (item :: rest) acc) st = Ok (RV (VBool false), st1)
+    /\ step fns rec (THof HEvery ismap lit fn (item :: rest') acc) st = Ok (RV (VBool false), st1).
+Proof. exact every_stops_at_first_false. Qed.
+Print Assumptions C14_every_stops_at_first_false.
+
+Theorem C14_callbacks_preserve_caller_locals :
+  forall fns fuel lit fn vs st v st', stk st <> [] ->
+    call_values fns (run fns fuel) lit fn vs st = Ok (v, st') -> stk st' = stk st.
+Proof. exact callbacks_preserve_locals. Qed.
+Print Assumptions C14_callbacks_preserve_caller_locals.
+
+(* then-chains: each put is a program of its own (functions, oosvars, stack) on the records the previous one emitted *)
+Theorem C14_chain_verbs_are_separate_programs :
+  forall vr p q p2 rest fuel ins outs rs, run_prog vr p q fuel ins = Ok outs -> recs_of outs = Some rs ->
+    run_chain vr ((p, q) :: p2 :: rest) fuel ins = run_chain vr (p2 :: rest) fuel rs.
+Proof. exact chain_is_composition. Qed.
+Print Assumptions C14_chain_verbs_are_separate_programs.
+
+Example C14_round3_nonvacuous :
+  run_prog documented hof_witness false 60 [] = Ok [OLine (B "[10, 20, 30]"); OLine (B "106"); OLine (B "[3, 1, 2]"); OLine (B "10")]
+  /\ run_chain documented [(verb 1 (B "x"), false); (verb 10 (B "y"), false)] 60 [[(B "a", VInt 0)]] =
+     Ok [ORec [(B "a", VInt 0); (B "x", VArr [VInt 2; VInt 3]); (B "y", VArr [VInt 11; VInt 12])]].
+Proof. split; [exact hof_example|exact chain_example]. Qed.
